@@ -386,6 +386,8 @@ def run_config(unit, cfgname, workdir, tier='quick', mutate=None, want_trace=Fal
         flags += ' --trace'
     if cfg.get('only_property'):
         flags += ' --property ' + cfg['only_property']
+    if cfg.get('stop_on_fail'):
+        flags += ' --stop-on-fail'
     cmd3 = 'cbmc %s %s --json-ui --verbosity 6' % (b, flags)
     res.cmds.append(cmd3)
     rc, out, err, dt = sh(cmd3, tmo)
@@ -404,6 +406,10 @@ def run_config(unit, cfgname, workdir, tier='quick', mutate=None, want_trace=Fal
     for item in js:
         if 'result' in item:
             results = item['result']
+        elif cfg.get('stop_on_fail') and isinstance(item, dict) and 'property' in item and 'status' in item:
+            # --stop-on-fail prints only the first failing property (with its trace), not a result list
+            item = dict(item); item['status'] = 'FAILURE' if str(item.get('status', '')).lower() in ('failed', 'failure') else item.get('status')
+            results = (results or []) + [item]
         if 'messageText' in item:
             msgs.append(item['messageText'])
     res.messages = msgs
@@ -439,7 +445,7 @@ def run_config(unit, cfgname, workdir, tier='quick', mutate=None, want_trace=Fal
     if len(res.obligations) < mino and not res.failed:
         res.status, res.reason = 'inconclusive', 'only %d obligations, spec floor is %d' % (len(res.obligations), mino)
         return res
-    if loopc and sp.loops and not cfg.get('only_property'):
+    if loopc and sp.loops and not cfg.get('only_property') and not cfg.get('stop_on_fail'):
         names = ' '.join(o['name'] or '' for o in res.obligations) + ' '.join(o['desc'] or '' for o in res.obligations)
         n_inv = len(re.findall(r'loop invariant.*(?:before entry|base)', ' '.join((o['desc'] or '') + '\n' for o in res.obligations)))
         n_step = len([o for o in res.obligations if re.search(r'invariant is preserved|loop_invariant_step', (o['desc'] or '') + (o['name'] or ''))])
@@ -465,7 +471,11 @@ def reach_probe(unit, cfgname, workdir, ctext):
     sp.configs[probe_spec_cfg] = dict(cfg, defs=cfg.get('defs', '') + ' -DREACH_PROBE_ON=1', min_obligations='1')
     if n_asserts <= 1:
         sp.configs[probe_spec_cfg]['only_property'] = 'harness.assertion.1'
+    else:
+        # one satisfying assignment that reaches the end of the harness is enough: stop at the first failing property
+        sp.configs[probe_spec_cfg]['stop_on_fail'] = '1'
     old_name = sp.name
+    cfg_stop = sp.configs[probe_spec_cfg].get('stop_on_fail')
     try:
         r = run_config(unit, probe_spec_cfg, workdir, ctext=ctext)
     finally:
@@ -473,6 +483,8 @@ def reach_probe(unit, cfgname, workdir, ctext):
     if r.status == 'inconclusive':
         return 'probe inconclusive: ' + r.reason
     hit = [o for o in r.failed if 'reach_end' in (o['desc'] or '')]
+    if not hit and cfg_stop and r.failed:
+        return None     # another property fails first (reported by the base run): the harness is not vacuous either
     if not hit:
         return 'vacuous: end of harness unreachable (contradictory requires?)'
     return None
